@@ -671,7 +671,7 @@ func runReplay(lp *loaded, repo, verif, dir string, cases []*replayCase) error {
 		}
 		cmd := exec.Command("go", "test", "-tags", "verif", "-vet=off", "-count=1", "-v", "-run", "^TestVerifReplay$", "-overlay", ovFile, "-timeout", "20m", ".")
 		cmd.Dir = pkgDir
-		cmd.Env = append(os.Environ(), "VERIF_REPLAY_DIR="+caseDir, "GOFLAGS=-mod=mod", "GOPROXY=off", "GOSUMDB=off", "GOTOOLCHAIN=local")
+		cmd.Env = append(os.Environ(), "VERIF_REPLAY_DIR="+caseDir, "TZ=", "GOFLAGS=-mod=mod", "GOPROXY=off", "GOSUMDB=off", "GOTOOLCHAIN=local")
 		out, err := cmd.CombinedOutput()
 		re := regexp.MustCompile(`(?m)^REPLAY (\S+) fails=(\[.*?\]) escaped="(.*)"$`)
 		found := map[string]*replayOutcome{}
